@@ -1,6 +1,82 @@
-/-! line protocol for C10 (stub: no model yet) -/
-namespace ObiVerif.Driver.C10
+import ObiVerif.Model.Apat
+import ObiVerif.Driver.Util
+/-! line protocol for C10
 
-def run (_line : String) : String := "bad-op"
+```
+pat    <pat> <emax> <indel>                                      -> err | ok <patlen> <cpat> <codes> <omask> <smat>
+rcpat  <pat> <emax> <indel>                                      -> err0 | err | ub | ok <patlen> <lower cpat> <codes> <omask> <smat>
+find|filter|all|best|is <pat> <emax> <indel> <rc> <seq> <circ> <begin> <length>
+                                                                 -> err | rcerr | hits | panic
+locate <pat> <seq>                                               -> panic | <from> <to> <score>
+```
+byte strings in hex; `rc` = 1: the search is done with `pattern.ReverseComplement()`. -/
+namespace ObiVerif.Driver.C10
+open ObiVerif.Apat ObiVerif.Driver
+
+def hexW (w : W) : String := String.ofList (Nat.toDigits 16 w.toNat)
+
+def showPat (P : Pattern) (name : Bytes) : String :=
+  s!"ok {P.patlen} {hex name} {",".intercalate (P.codes.map toString)} {hexW (omaskWord P.codes)} {",".intercalate ((smat P.codes).map hexW)}"
+
+def showHits (l : List Hit) : String :=
+  if l.isEmpty then "-" else ",".intercalate (l.map fun (a, b, c) => s!"{a}:{b}:{c}")
+
+def bool? (s : String) : Option Bool := if s = "1" then some true else if s = "0" then some false else none
+
+def run (line : String) : String :=
+  match words line with
+  | [op, p, e, i] =>
+    match unhex p, e.toNat?, bool? i with
+    | some p, some e, some i =>
+      if op = "pat" then
+        match compile p e i with
+        | .ok P => showPat P P.cpat
+        | .error _ => "err"
+      else if op = "rcpat" then
+        match compile p e i with
+        | .error _ => "err0"
+        | .ok P =>
+          match reverseComplement P with
+          | .ok R => showPat R (lowerStr R.cpat)
+          | .error .ub => "ub"
+          | .error .tooLong => "ub"
+          | .error _ => "err"
+      else "bad-op"
+    | _, _, _ => "bad-op"
+  | ["locate", p, s] =>
+    match unhex p, unhex s with
+    | some p, some s =>
+      match locatePattern p s with
+      | some (a, b, c) => s!"{a} {b} {c}"
+      | none => "panic"
+    | _, _ => "bad-op"
+  | [op, p, e, i, rc, s, circ, b, l] =>
+    match unhex p, e.toNat?, bool? i, bool? rc, unhex s, bool? circ, b.toInt?, l.toInt? with
+    | some p, some e, some i, some rc, some s, some circ, some b, some l =>
+      if circ && s.length < Gen.apatMaxPatLen then "bad-op" else
+      match compile p e i with
+      | .error _ => "err"
+      | .ok P0 =>
+        match (if rc then reverseComplement P0 else .ok P0) with
+        | .error .ub => "ub"
+        | .error .tooLong => "ub"
+        | .error _ => "rcerr"
+        | .ok P =>
+          if P.patlen ≥ 64 then "unmodelled" else
+          let s := s.map lowerByte
+          if op = "find" then showHits (findAllIndex P s circ b l)
+          else if op = "filter" then showHits (filterBestMatch P s circ b l)
+          else if op = "is" then (if isMatching P s circ b l then "1" else "0")
+          else if op = "all" then
+            match allMatches P s circ b l with
+            | .ok h => showHits h
+            | .panic => "panic"
+          else if op = "best" then
+            match bestMatch P s circ b l with
+            | .ok (a, b, c, m) => s!"{a} {b} {c} {if m then 1 else 0}"
+            | .panic => "panic"
+          else "bad-op"
+    | _, _, _, _, _, _, _, _ => "bad-op"
+  | _ => "bad-op"
 
 end ObiVerif.Driver.C10
